@@ -152,9 +152,12 @@ CHECKS = {
             "offset table in memory order, data - recovers the value), C05_string (size-prefixed, NUL-padded to a slot), "
             "C05_dynamic_struct / C05_offset_slot (size, static fields, offsets of the 2nd.. dynamic fields, data), C05_array_header "
             "(size, dynamic dims, strides iff N-D and dynamic; exactly dataOff bytes), C05_array_table, and the slot-alignment facts "
-            "C05_*_slots / C05_compound_size_mod.",
-            "Partial: the reference encodings (relative offset, null = -2^63, member index) are checked by the Python decoder and the "
-            "executable model, not proved.",
+            "C05_*_slots / C05_compound_size_mod. Reference encodings (node model, component rg): C05_ref_slot_encoding (a reference slot "
+            "holds the little-endian int64 `target - slot`, a union reference the member index in the next word; null = -2^63, member "
+            "index -1), C05_node_slots (fields on 8-byte slots, size a whole number of slots), C05_new_node_bytes; that these bytes "
+            "DEcode to the referent is C08_alias / C08_union_member / C08_null.",
+            "Partial: reference slots inside dynamic structs and arrays (their position in the enclosing layout) are checked by the "
+            "Python decoder and the executable model, not proved.",
             "7/C05"),
     "C06": (LAY + "oracle: _from_buffer view vs constructor handle (value, size, shape, strides; writes through either)",
             "Kernel-checked theorems: C06_view_value (a view, which re-reads every cached quantity from the bytes, reads the value the "
